@@ -131,21 +131,10 @@ theorem strKeys_seqItems {v : Val} {xs : List Val} (h : seqItems v = some xs) (h
 
 /-! ### the validator on lists -/
 
-theorem confLAll_iff (ll lk : Bool) (t : Ty) : ∀ ys : List Val,
-    confLAll ll lk t ys = true ↔ ∀ y ∈ ys, confL ll lk t y = true
-  | [] => by simp [confLAll]
-  | y :: ys => by simp [confLAll, confLAll_iff ll lk t ys]
-
 theorem confLAny_iff (ll lk : Bool) (v : Val) : ∀ ts : List Ty,
     confLAny ll lk ts v = true ↔ ∃ t ∈ ts, confL ll lk t v = true
   | [] => by simp [confLAny]
   | t :: ts => by simp [confLAny, confLAny_iff ll lk v ts]
-
-theorem confLKvs_iff (ll lk : Bool) (k : KTy) (t : Ty) : ∀ kvs : List (DKey × Val),
-    confLKvs ll lk k t kvs = true ↔ ∀ kv ∈ kvs, (lk || DKey.conf k kv.1) = true ∧ confL ll lk t kv.2 = true
-  | [] => by simp [confLKvs]
-  | (key, x) :: r => by
-    simp only [confLKvs, Bool.and_eq_true, confLKvs_iff ll lk k t r, List.mem_cons, forall_eq_or_imp]
 
 theorem F2.forall_right {α β : Type} {R : α → β → Prop} {P : β → Prop} {xs : List α} {ys : List β}
     (h : F2 R xs ys) (hp : ∀ x ∈ xs, ∀ y, R x y → P y) : ∀ y ∈ ys, P y := by
@@ -437,7 +426,7 @@ theorem sound_gen (O : Oracle) (ll lk : Bool) : ∀ (t : Ty) (orig : Option Stri
       | error e => simp [hz] at h
       | ok ys =>
         simp [hz] at h; subst h
-        simp only [confL, confLAll_iff]
+        simp only [confL, List.all_eq_true]
         exact ((allM_ok_iff _ xs ys).mp hz).forall_right (fun x hx y hy =>
           sound_gen O ll lk t .none x y (fun e => by simpa [litStrOnly] using hl e)
             (fun e => strKeysAll_mem (strKeys_seqItems hs (hk e)) _ hx) hy)
@@ -453,7 +442,7 @@ theorem sound_gen (O : Oracle) (ll lk : Bool) : ∀ (t : Ty) (orig : Option Stri
         simp only [hz, Bool.false_eq_true, if_false] at h
         split at h
         · simp at h; subst h
-          simp only [confL, confLAll_iff]
+          simp only [confL, List.all_eq_true]
           intro y hy
           exact ((allM_ok_iff _ xs ys).mp hz).forall_right (fun x hx y hy =>
             sound_gen O ll lk t .none x y (fun e => by simpa [litStrOnly] using hl e)
@@ -469,7 +458,7 @@ theorem sound_gen (O : Oracle) (ll lk : Bool) : ∀ (t : Ty) (orig : Option Stri
       | error e => simp [hz] at h
       | ok ys =>
         simp [hz] at h; subst h
-        simp only [confL, confLAll_iff]
+        simp only [confL, List.all_eq_true]
         exact ((allM_ok_iff _ xs ys).mp hz).forall_right (fun x hx y hy =>
           sound_gen O ll lk t .none x y (fun e => by simpa [litStrOnly] using hl e)
             (fun e => strKeysAll_mem (strKeys_seqItems hs (hk e)) _ hx) hy)
@@ -492,7 +481,7 @@ theorem sound_gen (O : Oracle) (ll lk : Bool) : ∀ (t : Ty) (orig : Option Stri
         | error e => simp [hz] at h
         | ok ys =>
           simp [hz] at h; subst h
-          simp only [confL, confLKvs_iff]
+          simp only [confL, List.all_eq_true, Bool.and_eq_true]
           refine ((allM_ok_iff _ kvs' ys).mp hz).forall_right (P := fun kv => (lk || DKey.conf k kv.1) = true ∧ confL ll lk t kv.2 = true) ?_
           intro kx hkx ky hky
           cases ha : adapt O false .none t kx.2 with
